@@ -50,24 +50,40 @@ def project_pairs(cs, evs):
     cur = None
     lastwait = None
     waiting_pre = False
+    metas = cs.get("_pairs", [])
+
+    def close(cur, lastwait):
+        m = metas[len(runs) // 2] if len(runs) // 2 < len(metas) else {}
+        cur["post"] = lastwait["line"]
+        if m.get("reg"):
+            # runs through the named register a: what it held after the prelude that filled it, and at the end
+            cur["reg"] = lastwait.get("rega", [])
+            cur["reg0"] = cur["waits"][1].get("rega", []) if len(cur.get("waits", [])) > 1 else []
+            if len(cur.get("waits", [])) > 1:
+                cur["pre"] = cur["waits"][1]["line"]
+        else:
+            cur["reg"] = lastwait["kill"]
+        runs.append(cur)
+
     for e in evs:
         if e["ev"] == "read" and e["bytes"] == [0x1c]:
             if cur is not None and lastwait is not None:
-                cur["post"], cur["reg"] = lastwait["line"], lastwait["kill"]
-                runs.append(cur)
-            cur = {}
+                close(cur, lastwait)
+            cur = {"waits": []}
             waiting_pre = True
         elif e["ev"] == "wait":
             if waiting_pre:
                 cur["pre"], cur["reg0"] = e["line"], e["kill"]
                 waiting_pre = False
+            if cur is not None:
+                cur["waits"].append(e)
             lastwait = e
         elif e["ev"] in ("parked", "return"):
             if cur is not None and lastwait is not None and "pre" in cur:
-                cur["post"], cur["reg"] = lastwait["line"], lastwait["kill"]
-                runs.append(cur)
+                close(cur, lastwait)
                 cur = None
-    metas = cs.get("_pairs", [])
+    for r in runs:
+        r.pop("waits", None)
     for i in range(0, len(runs) - 1, 2):
         d, y = runs[i], runs[i + 1]
         meta = metas[i // 2] if i // 2 < len(metas) else {}
@@ -75,7 +91,7 @@ def project_pairs(cs, evs):
             out.append(({"ev": "badpair"}, {"d": d, "y": y, "meta": meta}))
             continue
         ln = {"ev": "pair", "motion": meta.get("motion", "?"), "pre": d["pre"], "dpost": d["post"], "dreg": d["reg"], "dreg0": d["reg0"],
-              "ypost": y["post"], "yreg": y["reg"], "yreg0": y["reg0"]}
+              "ypost": y["post"], "yreg": y["reg"], "yreg0": y["reg0"], "app": bool(meta.get("app"))}
         out.append((ln, {"meta": meta, "s": 0}))
     for b in bad:
         out.append(({"ev": b["ev"]}, b))
@@ -111,14 +127,23 @@ def run(rep, tier, seed):
         for sub in chunks(chunk, per_session):
             sess = []
             for (b, c, m, cnt, visual) in sub:
+                # one pair in five goes through the named register a: a prelude fills it (a yank: the buffer stays what it
+                # is), then the operator writes to it ("a) or appends to it ("A)
+                reg = rng.random() < 0.2 and not visual
+                prelude = rng.choice([b'"aY', b'"ayw', b'"ayy', b'"ay$', b'"ayl']) if reg else b""
+                app = reg and rng.random() < 0.6
                 for op in (b"d", b"y"):
                     # both runs start with the same sentinel in the unnamed register ("nothing copied" is then visible)
                     cs["setups"].append(setup(b, c, "vi-command", kill="\u00a7\u00a7"))
                     sess.append(SETUP_KEY)
+                    if reg:
+                        sess.append(keys(prelude))
+                        sess.append(keys(b'"A' if app else b'"a'))
                     for k in script(op, m, cnt, visual):
                         sess.append(keys(k))
                     sess.append(keys(b"\x1b"))
-                cs["_pairs"].append({"buf": b, "cur": c, "motion": (m.decode("utf-8", "replace") if m != DOUBLE else "dd/yy"), "count": cnt, "visual": visual})
+                cs["_pairs"].append({"buf": b, "cur": c, "motion": (m.decode("utf-8", "replace") if m != DOUBLE else "dd/yy"), "count": cnt, "visual": visual,
+                                     "reg": reg, "app": app, "prelude": prelude.decode()})
             cs["sessions"].append(sess)
         # one session per case keeps the pair bookkeeping simple
         cs["sessions"] = [sum(cs["sessions"], [])]
@@ -148,7 +173,7 @@ def run(rep, tier, seed):
                              "raw_event": {k: v for k, v in (raw.items() if isinstance(raw, dict) else []) if k != "stack"}})
     rep.rule = ("pairs (d-run, y-run) from the identical state: every cursor of every buffer of length <= %d over {word, digit, blank, punct, quote, "
                 "brackets, newline} + curated shapes x %d motions / text objects (h l w b e W B E 0 $ ^ %% ge gE | f/F/t/T<c> iw aw iW aW ia aa "
-                "i/a quotes and brackets, j k, dd/yy) x count {none, 2, 3} x {operator-pending, visual}; seeded sample of %d; non-trivial = "
+                "i/a quotes and brackets, j k, dd/yy) x count {none, 2, 3} x {operator-pending, visual}, one pair in five through the named register a (filled by a yank first, then written or appended to); seeded sample of %d; non-trivial = "
                 "distinct (buffer, motion, result) where delete removed text" % (maxlen, len(motions), n))
     rep.explanation = ("ViOperator.tla transcribes the pending-operator protocol and is model-checked with d and y side by side; every recorded "
                        "pair of real runs is validated by ViOpTrace (one contiguous range removed = the text yank copied, yank edits nothing)")
